@@ -47,6 +47,11 @@ import BGV
 #print axioms BGV.C05_dir_readd_noop
 #print axioms BGV.C05_dir_total
 #print axioms BGV.C05_dir_graph_part
+#print axioms BGV.C05_und_inv_reachable
+#print axioms BGV.C05_und_refines
+#print axioms BGV.C05_und_getEdgeWeight
+#print axioms BGV.C05_und_readd_noop
+#print axioms BGV.C05_und_total
 
 -- C06
 #print axioms BGV.C06_eq_iff_same_graph
